@@ -714,8 +714,18 @@ def split_shared(case, obs):
             for c in same:
                 per_col[c["name"]] = None
             continue
-        left = list(same)
+        # columns may hold identical text: prefer the column whose own chunking the group shows, then one with the
+        # same text, then any (the per-column check then reports the discrepancy)
+        left, todo = list(same), []
         for g in groups:
+            elems = [call["elems"] for call in g]
+            hit = next((c for c in left if py_chunks(rendered(c), c["batch_size"]) == elems), None)
+            if hit is None:
+                todo.append(g)
+            else:
+                left.remove(hit)
+                per_col[hit["name"]] = g
+        for g in todo:
             flat = [e for call in g for e in call["elems"]]
             hit = next((c for c in left if rendered(c) == flat), left[0])
             left.remove(hit)
